@@ -344,7 +344,13 @@ macro_rules! runner {
           }
           "unsub" => {
             if let Some(h) = self.handles[(s.a - 1) as usize].take() {
-              h.unsubscribe();
+              if s.b == 1 {
+                // the RAII way: a guard from unsubscribe_when_dropped() goes out of scope
+                let guard = h.unsubscribe_when_dropped();
+                drop(guard);
+              } else {
+                h.unsubscribe();
+              }
             }
             Val::U
           }
